@@ -54,8 +54,14 @@ func (g *G) genDoc(did string, auth []int) *didtypes.DIDDocument {
 		}
 		return g.weighted(fmt.Sprintf("type%d", ki), es256k2019, 14, es256k2018, 4, ed2018, 1, "FooKey2030", 1)
 	}
+	// the controller of a verification method is free-form: usually the DID itself, sometimes
+	// another (registered or unregistered) identifier
+	ctrl := did
+	if g.chance("foreign-method-controller", g.bias("foreign-controller", 5)) {
+		ctrl = keys[g.intn("controller-of", 6)].DID()
+	}
 	mkVM := func(ki int, ded bool) *didtypes.VerificationMethod {
-		return &didtypes.VerificationMethod{Id: vmID(did, ki, ded), Type: typ(ki), Controller: did, PublicKeyBase58: base58.Encode(keys[ki].Pub)}
+		return &didtypes.VerificationMethod{Id: vmID(did, ki, ded), Type: typ(ki), Controller: ctrl, PublicKeyBase58: base58.Encode(keys[ki].Pub)}
 	}
 	inAuth := map[int]bool{}
 	for _, ki := range auth {
@@ -387,6 +393,19 @@ func (g *G) genDidMsg() (sdk.Msg, string) {
 	note := "did-update"
 	if g.chance("mismatch", g.bias("did-mismatch", 4)) {
 		docDID = g.otherDID(did, pool)
+		if stored != nil && g.chance("mismatch-to-controller", 50) {
+			// ... preferably the identifier the stored document names as controller of its keys
+			for _, vm := range stored.VerificationMethods {
+				if vm.Controller != did && vm.Controller != "" {
+					docDID = vm.Controller
+				}
+			}
+			for _, rel := range stored.Authentications {
+				if vm := rel.GetVerificationMethod(); vm != nil && vm.Controller != did && vm.Controller != "" {
+					docDID = vm.Controller
+				}
+			}
+		}
 		if docDID != did {
 			note = "did-update-mismatch"
 		}
